@@ -30,6 +30,12 @@ pub trait SetupModule:
     #[endpoint(setTicketPrice)]
     fn set_ticket_price(&self, token_id: EgldOrEsdtTokenIdentifier, amount: BigUint) {
         self.require_add_tickets_period();
+        if token_id.is_esdt() {
+            require!(
+                self.launchpad_token_id().get() != token_id.clone().unwrap_esdt(),
+                "Launchpad token must be different from ticket payment token"
+            );
+        }
         self.try_set_ticket_price(token_id.clone(), amount.clone());
 
         let ticket_price = EgldOrEsdtTokenPayment::new(token_id, 0, amount);
